@@ -1,0 +1,12 @@
+//go:build verif
+
+package sonic
+
+import "github.com/talostrading/sonic/internal"
+
+// VerifSetPoint installs (or, with nil, removes) the function called at the named verifPoint places of the
+// poller. It exists only under the `verif` build tag; a runtime monitor uses it to widen interleaving
+// windows or to run the garbage collector at a known place inside a poll batch.
+func VerifSetPoint(f func(name string)) {
+	internal.VerifPoint = f
+}
